@@ -194,7 +194,13 @@ func runC18(c *Ctx) {
 	if !c.R.Anchor(lex != nil, "commentparser.(*input).lex") || !c.R.Anchor(match != nil, "commentparser.(*input).match") {
 		return
 	}
-	cfg := eng.LexConfig{Peek: "peekRune", Read: "readRune", Unread: "unreadRune", EOF: "eof", MatchLike: []string{"match", "singleLineComment", "multiLineComment"}}
+	cfg := eng.LexConfig{Peek: p.Func(cpPkg, "(*input).peekRune"), Read: p.Func(cpPkg, "(*input).readRune"), Unread: p.Func(cpPkg, "(*input).unreadRune"), EOF: p.Func(cpPkg, "(*input).eof"),
+		MatchLike: []*ssa.Function{match, p.Func(cpPkg, "(*input).singleLineComment"), p.Func(cpPkg, "(*input).multiLineComment")}}
+	for _, f := range append([]*ssa.Function{cfg.Peek, cfg.Read, cfg.Unread, cfg.EOF}, cfg.MatchLike...) {
+		if !c.R.Anchor(f != nil, "commentparser lexer primitive") {
+			return
+		}
+	}
 	lr := eng.AnalyzeLexer(lex, cfg)
 	c.R.Count("R18.4:blocks of lex", lr.Blocks)
 	c.R.Count("R18.4:readRune calls", lr.Reads)
